@@ -181,10 +181,57 @@ func runSolver(ctx context.Context, backend, file string, timeoutS int, seed int
 }
 
 // discharge decides one obligation: first z3-new alone with a short limit, then all back ends raced.
+// discharge decides one obligation. A goal that is a conjunction is split into its conjuncts (smaller goals
+// are decided far more reliably); every conjunct must be discharged.
 func discharge(o *Obligation, cfg SolverCfg) {
 	if o.Status == "discharged" {
 		return // decided by the batch pass
 	}
+	if !o.Vacuity {
+		if parts := splitConj(o.Goal); len(parts) > 1 {
+			t0 := time.Now()
+			o.Answers = map[string]string{}
+			status, backend := "discharged", ""
+			for i, part := range parts {
+				sub := *o
+				sub.Goal = part
+				sub.ID = fmt.Sprintf("%s.part%d", o.ID, i+1)
+				sub.Status, sub.Backend, sub.Model, sub.Answers = "", "", nil, nil
+				dischargeOne(&sub, cfg)
+				for k, v := range sub.Answers {
+					o.Answers[fmt.Sprintf("part%d:%s", i+1, k)] = v
+				}
+				backend = sub.Backend
+				if sub.Status != "discharged" {
+					status = sub.Status
+					o.Model = sub.Model
+					o.SMTFile = sub.SMTFile
+					break
+				}
+				o.SMTFile = sub.SMTFile
+			}
+			o.Status, o.Backend = status, backend
+			o.TimeS = time.Since(t0).Seconds()
+			return
+		}
+	}
+	dischargeOne(o, cfg)
+}
+
+// splitConj returns the top-level conjuncts of an SMT term (and a b c) recursively flattened.
+func splitConj(g string) []string {
+	n := parseSx(g)
+	if n == nil || n.atom != "" || len(n.kids) < 3 || n.kids[0].atom != "and" {
+		return []string{g}
+	}
+	var out []string
+	for _, k := range n.kids[1:] {
+		out = append(out, splitConj(k.render())...)
+	}
+	return out
+}
+
+func dischargeOne(o *Obligation, cfg SolverCfg) {
 	if o.Goal == "true" && !o.Vacuity {
 		o.Status, o.Backend = "discharged", "trivial"
 		return
@@ -242,13 +289,25 @@ func discharge(o *Obligation, cfg SolverCfg) {
 			return
 		}
 	}
-	ctx, cancel := context.WithCancel(context.Background())
-	ch := make(chan solverAnswer, len(backs))
+	// portfolio: instantiation order depends heavily on the random seed, so z3 runs with several seeds
+	type job struct {
+		backend string
+		seed    int
+	}
+	var jobs []job
 	for _, b := range backs {
-		go func(b string) { ch <- runSolver(ctx, b, file, limit, cfg.Seed) }(b)
+		jobs = append(jobs, job{b, cfg.Seed})
+		if b == "z3-new" && !o.Vacuity {
+			jobs = append(jobs, job{b, cfg.Seed + 1}, job{b, cfg.Seed + 2}, job{b, cfg.Seed + 3})
+		}
+	}
+	ctx, cancel := context.WithCancel(context.Background())
+	ch := make(chan solverAnswer, len(jobs))
+	for _, j := range jobs {
+		go func(j job) { ch <- runSolver(ctx, j.backend, file, limit, j.seed) }(j)
 	}
 	done := false
-	for range backs {
+	for range jobs {
 		a := <-ch
 		if done {
 			continue
